@@ -70,6 +70,9 @@ def main(argv=None) -> int:
             continue
         seen_known.add(f['key'])
         print(f"KNOWN-FINDING: property={pid} {f.get('what', v.message)}")
+    if len(new) > 12:
+        print(f'  ({len(new)} distinct violation keys; the first 12 are reported)')
+        new = new[:12]
     for i, (v, _) in enumerate(new):
         path = core.write_replay(pid, i, v)
         print(f'  {v.key}: {v.message}'[:600])
